@@ -699,6 +699,22 @@ def cqm_case(ctx, r, lines, checks):
                 continue
             if r.random() < .4:
                 oquad.append(((u, v), dy(r, 8, 2)))
+    # spin variables that occur ONLY in interactions (linear bias 0), with spin, binary and integer partners: the
+    # SPIN -> BINARY substitution of `_qm_to_bqm` must not depend on a linear bias being present (seed C16-7)
+    spins = [v for v, k in zip(names, kinds) if k[0] == 'S']
+    spin_quad_only = False
+    if spins and len(names) >= 2 and r.random() < .3:
+        olin = [(v, a) for v, a in olin if v not in spins]
+        have = {frozenset(p) for p, _ in oquad}
+        for sv in spins:
+            partner = r.choice([u for u in names if u != sv])
+            if frozenset((sv, partner)) not in have:
+                a = F(0)
+                while a == 0:
+                    a = dy(r, 8, 2)
+                pair = (sv, partner) if names.index(sv) < names.index(partner) else (partner, sv)
+                oquad.append((pair, a)); have.add(frozenset(pair))
+        spin_quad_only = any(sv in p for p, a in oquad for sv in spins if a != 0)
     ooff = dy(r, 8, 2) if r.random() < .5 else F(0)
     cons = []
     for _ in range(r.choice([0, 1, 1, 2, 2, 3])):
@@ -814,7 +830,7 @@ def cqm_case(ctx, r, lines, checks):
         err = None
     except Exception as e:  # noqa
         err = e
-    ctx.tick('cqm' + (':spin' if has_spin else '') + (':bit-label-conflict' if conflict else '') + (f':{type(err).__name__}' if err is not None else ''))
+    ctx.tick('cqm' + (':spin' if has_spin else '') + (':spin-only-in-interactions' if spin_quad_only else '') + (':bit-label-conflict' if conflict else '') + (f':{type(err).__name__}' if err is not None else ''))
     ctx.case(('cqm', line), nontrivial=err is None, sample=dict(vars=list(zip(map(repr, names), kinds)), ncons=len(cons), lam=str(lam)))
     site = 'cqm_to_bqm'
     if err is not None:
